@@ -47,13 +47,22 @@ class FakeDB:
     def __init__(self, genes=(), transcripts=(), exons=()):
         self.f = {"gene": list(genes), "transcript": list(transcripts), "exon": list(exons)}
 
-    def region(self, seqid=None, start=None, featuretype=None):
+    def _of_type(self, featuretype):
         if isinstance(featuretype, (tuple, list)):
             out = []
             for t in featuretype:
                 out += self.f.get(t, [])
-            return iter(out)
-        return iter(self.f.get(featuretype, []))
+            return out
+        return list(self.f.get(featuretype, []))
+
+    def region(self, seqid=None, start=None, end=None, featuretype=None, **kw):
+        return iter([f for f in self._of_type(featuretype) if getattr(f, "seqid", seqid) == seqid])
+
+    def features_of_type(self, featuretype, **kw):
+        return iter(self._of_type(featuretype))
+
+    def all_features(self, featuretype=None, **kw):
+        return iter(self._of_type(featuretype))
 
     def __bool__(self):
         return True
@@ -75,10 +84,14 @@ def h_exon_ids(n_ref, n_calls, ref_style):
             strand = "+" if g.bool("ref%d_plus" % i) else "-"
             rid = ["ENSE000%d" % i, "chr1.%d" % (i + 1)][ref_style]
             ref.append(((chr_id, s, e, strand), rid))
-            exons.append(Obj(start=s, end=e, strand=strand, attributes={"exon_id": [rid]}))
+            exons.append(Obj(seqid=chr_id, start=s, end=e, strand=strand, attributes={"exon_id": [rid]}))
         for i in range(n_ref):
             for j in range(i):
                 g.add(NOT(key_eq(ref[i][0], ref[j][0])))
+        # a reference exon of ANOTHER chromosome (its id must never be handed out on this one)
+        os_, oe = g.int("other_chr_start", 1), g.int("other_chr_end", 1)
+        g.add(os_ <= oe)
+        exons.append(Obj(seqid="chr2", start=os_, end=oe, strand="+", attributes={"exon_id": ["ENSE_OTHER_CHR"]}))
         # the real constructor (recompiled with {} -> dict() so that the table is an association list)
         st = call(g, id_policy.FeatureIdStorage, id_policy.SimpleIDDistributor(), FakeDB(exons=exons), chr_id, "exon")
         if not g.symbolic:
@@ -97,6 +110,7 @@ def h_exon_ids(n_ref, n_calls, ref_style):
                 g.check(IMPLIES(same, r1 == r2), "identical exons carry the same exon_id wherever they occur",
                         detail={"ids": [repr(r2), repr(r1)]})
                 g.check(IMPLIES(NOT(same), r1 != r2), "distinct exons carry distinct exon_ids", detail={"ids": [repr(r2), repr(r1)]})
+            g.check(r1 != "ENSE_OTHER_CHR", "the id of an exon of another chromosome is never used here")
             for kr, rid in ref:
                 g.check(IMPLIES(key_eq(k1, kr), r1 == rid), "exon_ids present in the reference are preserved")
                 g.check(IMPLIES(NOT(key_eq(k1, kr)), r1 != rid), "a generated exon_id never equals the id of a different reference exon",
